@@ -258,8 +258,8 @@ def solver_case(draw):
             "rho": draw(st.sampled_from([0.0, 0.3, 0.9, 0.999, 1.05, 3.0])), "G": draw(vec(n * n)),
             "b": draw(vec(n)), "x0": draw(vec(n, -2.0, 2.0)), "cubic": draw(st.sampled_from([0.0, 0.0, 0.2])),
             "fault_at": draw(st.one_of(st.none(), st.integers(1, 30))),
-            "fault": draw(st.sampled_from(["nan", "+inf", "ValueError", "numpy.LinAlgError", "mici.LinAlgError",
-                                           "nan-one-entry"])),
+            "fault": draw(st.sampled_from(["nan", "+inf", "-inf", "ValueError", "numpy.LinAlgError", "mici.LinAlgError",
+                                           "nan-one-entry", "inf-one-entry"])),
             "tol": draw(st.sampled_from([1e-9, 1e-6, 1e-12])), "max_iters": draw(st.sampled_from([100, 100, 5, 1])),
             "divergence_tol": draw(st.sampled_from([1e10, 1e3]))}
 
@@ -295,7 +295,9 @@ def run_solver(res, case):
                 return out * math.nan
             if kind == "+inf":
                 return out + math.inf
-            out[0] = math.nan
+            if kind == "-inf":
+                return out - math.inf
+            out[0] = math.inf if kind == "inf-one-entry" else math.nan
             return out
         return Amat @ x + b + case["cubic"] * np.sin(x)
 
@@ -323,6 +325,19 @@ def run_solver(res, case):
         res.fail(f"C12:solver[{case['solver']}]:returned-non-finite", f"solver returned {x.tolist()}")
         return
     tol = case["tol"]
+    # independent of the solver's own stopping rule: the returned point must nearly satisfy x = f(x) for the fault-free
+    # function.  For either solver a genuine stop with last update < tol implies |f(x) - x| <= 2 (1 + L) sqrt(n) tol
+    # (L = rho + cubic: Lipschitz constant of f); a factor 25 of slack is allowed on top.
+    clean = Amat @ x + b + case["cubic"] * np.sin(x)
+    resid = float(np.max(np.abs(clean - x)))
+    bound = 50.0 * (1.0 + case["rho"] + case["cubic"]) * math.sqrt(n) * tol
+    if not resid <= bound:
+        res.fail(f"C12:solver[{case['solver']}]:returned-point-is-not-a-fixed-point" +
+                 (f":fault={case['fault']}" if case["fault_at"] is not None and case["fault_at"] <= len(calls) else ""),
+                 f"{case['solver']} solver returned {x.tolist()} after {len(calls)} evaluations (fault "
+                 f"{case['fault'] if case['fault_at'] is not None and case['fault_at'] <= len(calls) else 'none'} at evaluation "
+                 f"{case['fault_at']}): |f(x) - x| = {resid:.3e} for the fault-free function, tolerance {tol:.1e} (bound {bound:.1e})")
+        return
     if case["solver"] == "direct":
         prev = calls[-1]
         if not (np.array_equal(x, Amat @ prev + b + case["cubic"] * np.sin(prev)) or case["fault_at"] == len(calls)):
@@ -367,6 +382,15 @@ def run_chain_case(res, case):
             res.fail(f"C12:returned-state-not-a-valid-candidate:{trans['kind']}", f"{ctx}: returned state is neither the "
                      f"start state nor the output of a successful integrator step")
         errs = set(st_.step_errors)
+        if trans["kind"] in ("static", "random") and errs and not res.failures:
+            # a Metropolis trajectory has a single candidate, its end point: an integrator failure anywhere along it is a
+            # rejection (state unchanged, acceptance statistic zero) - not a move to the last state reached
+            if key != start:
+                res.fail(f"C12:failed-trajectory-not-rejected:{trans['kind']}", f"{ctx}: integrator errors {sorted(errs)} "
+                         f"after {len(st_.step_outputs)} successful step(s) but the chain moved to a partial-trajectory state")
+            elif float(stats.get("accept_stat", 0.0)) != 0.0:
+                res.fail(f"C12:failed-trajectory-accept_stat:{trans['kind']}", f"{ctx}: integrator errors {sorted(errs)} but "
+                         f"accept_stat = {stats.get('accept_stat')!r}")
         expect = {"convergence_error": "ConvergenceError" in errs, "non_reversible_step": "NonReversibleStepError" in errs}
         if trans["kind"] != "static":
             expect["diverging"] = "HamiltonianDivergenceError" in errs or bool(stats.get("diverging"))
